@@ -402,6 +402,10 @@ class FnTr:
             elif k == "const":
                 declared.add(s[1])
         visit_b((stmts, tail))
+        if getattr(self.u, "sort_acc", False):
+            # canonical order of the tuple of assigned variables (self first, then by name): reordering independent statements
+            # of a loop body / branch does not change the shape of the translation
+            out.sort(key=lambda n: (n != "self", n))
         return out
 
     def literal_indexed_only(self, name, stmts, tail):
@@ -574,7 +578,7 @@ class FnTr:
                 self.emit(f"let {v.elems[i].lean} := {val.lean};")
                 return
             ty = v.ty if v.ty is not None else self.inferred.get(v.key)
-            if not (isinstance(ty, tuple) and ty[0] == "arr" and ty[1] != "u8"):
+            if not (isinstance(ty, tuple) and ty[0] in ("arr", "slice") and ty[1] != "u8"):
                 raise Unsupported("element assignment into this type")
             if ty[1] is None and val.ty is not None:
                 self.infer(v.key, ("arr", val.ty, ty[2]))
@@ -689,6 +693,10 @@ class FnTr:
             raise Unsupported(f"field .{e[2]}")
         if k == "index":
             if e[2][0] == "range":
+                if e[2][1] is None and e[2][2] is None:
+                    v = self.expr(e[1])            # `a[..]`: the whole array as a slice
+                    if isinstance(v.ty, tuple) and v.ty[0] in ("arr", "slice"):
+                        return v
                 raise Unsupported("a slice used as a value")
             return self.read_elem(e[1], e[2])
         if k == "deref":
@@ -822,6 +830,8 @@ class FnTr:
                 return Val(f"BitVec.ofNat {INT[to]} {v.atom()}", to)
             if to == "nat" and v.ty == "nat":
                 return v
+            if v.ty == "bool" and (to == "nat" or to in INT):
+                return Val(f"{v.atom()}.toNat", "nat") if to == "nat" else Val(f"BitVec.ofNat {INT[to]} {v.atom()}.toNat", to)
             raise Unsupported(f"cast {v.ty} as {to}")
         if k == "un":
             v = self.expr(e[2], want)
@@ -868,7 +878,7 @@ class FnTr:
             return self.struct_lit(e)
         if k == "tuple":
             vs = [self.expr(x) for x in e[1]]
-            return Val("(" + ", ".join(v.lean for v in vs) + ")", ("tuple", [v.ty for v in vs]))
+            return Val("(" + ", ".join(v.lean for v in vs) + ")", ("tuple", tuple(v.ty for v in vs)))
         if k == "unsafe":
             raise Unsupported("unsafe block")
         if k == "macro":
@@ -1345,20 +1355,37 @@ class FnTr:
 
     def if_expr(self, e, want):
         _, c, th, el = e
+        self.preflush(e)
         cv = self.expr(c, "bool")
         if el is None:
             raise Unsupported("if without else in value position")
+        # variables assigned inside the branches are returned together with the value
+        names = self.assigned(th[0], th[1])
+        for n in self.assigned(el[0], el[1]):
+            if n not in names:
+                names.append(n)
         def br(b):
             def f():
                 self.stmts(b[0])
                 v = self.expr(b[1], want)
-                return v
+                self.end_scope()
+                return v, (self.tuple_of(names) if names else None)
             return self.sub(f)
-        l1, v1 = br(th)
-        l2, v2 = br(el)
+        l1, (v1, t1) = br(th)
+        l2, (v2, t2) = br(el)
         ty = v1.ty if v1.ty is not None else v2.ty
         v1, v2 = self.fix(v1, ty), self.fix(v2, ty)
-        return Val(f"if {cv.lean} then {self.render(l1, v1.lean)} else {self.render(l2, v2.lean)}", ty)
+        if not names:
+            return Val(f"if {cv.lean} then {self.render(l1, v1.lean)} else {self.render(l2, v2.lean)}", ty)
+        if v1.elems is not None or v2.elems is not None:
+            raise Unsupported("array-valued if with assignments in its branches")
+        def strip(t):
+            return t[1:-1] if t.startswith("(") and t.endswith(")") else t
+        r = self.fresh("b")
+        pat = f"({r}, {strip(self.tuple_of(names))})"
+        self.emit(f"let {pat} := if {cv.lean} then {self.render(l1, '(' + v1.lean + ', ' + strip(t1) + ')')} "
+                  f"else {self.render(l2, '(' + v2.lean + ', ' + strip(t2) + ')')};")
+        return Val(r, ty)
 
     def block_expr(self, stmts, tail, want):
         if tail is None:
@@ -1588,7 +1615,7 @@ class FnTr:
                 if b is not None:
                     self.stmts(b[0])
                     if b[1] is not None:
-                        self.expr(b[1])
+                        self.stmt(("expr", b[1]), [])       # statement context: an `else if` chain, a unit-valued block
                 self.end_scope()
                 return self.tuple_of(names)
             return self.sub(f)
@@ -1665,6 +1692,36 @@ class FnTr:
                        (self.subst_deref(body[0], m), None)))
 
     def for_stmt(self, s):
+        try:
+            return self.for_stmt_(s)
+        except Unsupported as e:
+            # `for i in 0..8 { a[i] = w(b[i]); }` with a flattened `b`: a loop over a small literal range is unrolled
+            if "variable index into a flattened array" not in str(e):
+                raise
+            _, var, it, body = s
+            r = it
+            while r[0] in ("paren",):
+                r = r[1]
+            if var[0] != "name" or r[0] != "range" or r[1] is None or r[2] is None or body[1] is not None:
+                raise
+            lo, hi = const_eval(r[1], self.u.const_vals), const_eval(r[2], self.u.const_vals)
+            if lo is None or hi is None or hi - lo + (1 if r[3] else 0) > 16:
+                raise
+            if any(st[0] == "assign" and self.place_root(st[1]) == var[1] for st in body[0]):
+                raise
+            for k in range(lo, hi + (1 if r[3] else 0)):
+                saved = self.scope
+                self.scope = Scope(saved)
+                try:
+                    v = Var(var[1], "nat", str(k), const=True)
+                    v.lit = k
+                    self.scope.declare(var[1], v)
+                    self.stmts(body[0])
+                    self.end_scope()
+                finally:
+                    self.scope = saved
+
+    def for_stmt_(self, s):
         _, var, it, body = s
         self.preflush(s)
         # iterable
@@ -1827,7 +1884,7 @@ class FnTr:
         comps = []
         if ret_ty is None:
             if tail is not None:
-                self.expr(tail)
+                self.stmt(("expr", tail), [])          # a unit-valued tail (`if … { … } else if … { … }`) is a statement
         else:
             if tail is None:
                 raise Unsupported("function with a return type but no tail expression")
@@ -1850,7 +1907,7 @@ class FnTr:
         for a in list(self.aliases):
             self.flush(a)
         for n in self.outs:
-            ov = self.scope.get(n)
+            ov = getattr(self, "out_vars", {}).get(n) or self.scope.get(n)      # (the name may have been shadowed by a local)
             if ov is None or ov.elems is not None or ov.view is not None:
                 raise Unsupported(f"`&mut` parameter {n} is not a plain variable at the end of the function")
             comps.append(ov.lean)
@@ -1909,6 +1966,10 @@ class FnTr:
                 elems = [Val(f"{lname(n)}_{i}", ty[1]) for i in range(ty[2])]
                 self.scope.declare(n, Var(n, ty, None, elems=elems))
                 params += [f"({x.lean} : {lean_ty(ty[1])})" for x in elems]
+            elif ty in (("named", "Self"), ("named", self.u.sinfo.name)) and not mr:
+                # another value of the unit's struct (`rhs: &Self` of PartialEq::eq)
+                self.scope.declare(n, Var(n, ("named", "Self"), lname(n)))
+                params.append(f"({lname(n)} : {self.u.sinfo.lean})")
             else:
                 if isinstance(ty, tuple) and ty[0] == "arr" and not isinstance(ty[2], int):
                     raise Unsupported(f"array parameter of unknown length {ty[2]}")
